@@ -874,6 +874,33 @@ impl LocalPeerService {
             edge_list.push((node_to_insert.id, node_to_insert.old_mdate));
             node_map.insert(node_to_insert.id, node_to_insert);
             if node_list.len() == batch_size {
+                //references first: if the synchronisation is interrupted before the rows are stored, the day is requested again
+                let mut result_recv: Receiver<Result<Vec<Edge>, Error>> =
+                    LocalPeerService::query_multiple(
+                        query_service,
+                        Query::Edges(room_id, edge_list.clone()),
+                    )
+                    .await;
+
+                while let Some(edges) = result_recv.recv().await {
+                    let edges = edges?;
+                    let edges = discret_services
+                        .signature_verification
+                        .verify_edges(edges)
+                        .await?;
+                    let res = discret_services.database.add_edges(room_id, edges).await?;
+                    if !res.is_empty() {
+                        #[cfg(feature = "log")]
+                        error!(
+                            "synchronise_day, Error: {}",
+                            crate::Error::EdgeRejected(
+                                res.len(),
+                                security::uid_encode(&room_id),
+                                date
+                            ),
+                        );
+                    }
+                }
                 let mut result_recv: Receiver<Result<Vec<Node>, Error>> =
                     LocalPeerService::query_multiple(
                         query_service,
@@ -910,38 +937,36 @@ impl LocalPeerService {
                         );
                     }
                 }
-                let mut result_recv: Receiver<Result<Vec<Edge>, Error>> =
-                    LocalPeerService::query_multiple(
-                        query_service,
-                        Query::Edges(room_id, edge_list.clone()),
-                    )
-                    .await;
-
-                while let Some(edges) = result_recv.recv().await {
-                    let edges = edges?;
-                    let edges = discret_services
-                        .signature_verification
-                        .verify_edges(edges)
-                        .await?;
-                    let res = discret_services.database.add_edges(room_id, edges).await?;
-                    if !res.is_empty() {
-                        #[cfg(feature = "log")]
-                        error!(
-                            "synchronise_day, Error: {}",
-                            crate::Error::EdgeRejected(
-                                res.len(),
-                                security::uid_encode(&room_id),
-                                date
-                            ),
-                        );
-                    }
-                }
                 node_list.clear();
                 node_map.clear();
             }
         }
 
         if !node_list.is_empty() {
+            //references first: if the synchronisation is interrupted before the rows are stored, the day is requested again
+            let mut result_recv: Receiver<Result<Vec<Edge>, Error>> =
+                LocalPeerService::query_multiple(
+                    query_service,
+                    Query::Edges(room_id, edge_list.clone()),
+                )
+                .await;
+
+            while let Some(edges) = result_recv.recv().await {
+                let edges = edges?;
+                let edges = discret_services
+                    .signature_verification
+                    .verify_edges(edges)
+                    .await?;
+                let res = discret_services.database.add_edges(room_id, edges).await?;
+                if !res.is_empty() {
+                    #[cfg(feature = "log")]
+                    error!(
+                        "synchronise_day, Error: {}",
+                        crate::Error::EdgeRejected(res.len(), security::uid_encode(&room_id), date),
+                    );
+                }
+            }
+
             let mut result_recv: Receiver<Result<Vec<Node>, Error>> =
                 LocalPeerService::query_multiple(query_service, Query::Nodes(room_id, node_list))
                     .await;
@@ -968,29 +993,6 @@ impl LocalPeerService {
                     error!(
                         "synchronise_day, Error: {}",
                         crate::Error::NodeRejected(res.len(), security::uid_encode(&room_id), date),
-                    );
-                }
-            }
-
-            let mut result_recv: Receiver<Result<Vec<Edge>, Error>> =
-                LocalPeerService::query_multiple(
-                    query_service,
-                    Query::Edges(room_id, edge_list.clone()),
-                )
-                .await;
-
-            while let Some(edges) = result_recv.recv().await {
-                let edges = edges?;
-                let edges = discret_services
-                    .signature_verification
-                    .verify_edges(edges)
-                    .await?;
-                let res = discret_services.database.add_edges(room_id, edges).await?;
-                if !res.is_empty() {
-                    #[cfg(feature = "log")]
-                    error!(
-                        "synchronise_day, Error: {}",
-                        crate::Error::EdgeRejected(res.len(), security::uid_encode(&room_id), date),
                     );
                 }
             }
